@@ -138,7 +138,17 @@ def fill_contract(rep):
         st.update(q=q, params=params, res=res, tr=tr, rets=[], nwrites=len(ex.writes))
         if len(tr) == 1:
             cb = tr[0].callback
-            st['cp'] = cb.env.lookup('params') if hasattr(cb, 'env') else None
+            # the values the visitor consumes: whichever variable of its closure holds a copy of the caller's list (the name is not part of the contract)
+            st['cp'] = None
+            e_ = getattr(cb, 'env', None)
+            while e_ is not None and st['cp'] is None:
+                for v_ in e_.vars.values():
+                    if isinstance(v_, SymSeq) and getattr(v_, 'copy_of', (None,))[0] is params:
+                        st['cp'] = v_
+                        break
+                    if v_ is params:
+                        st['cp'] = v_
+                e_ = e_.parent
             p1 = SymObj({ast.Parameter}, 'param1', prov='param')
             other = SymObj(None, 'other', prov='param')
             other.known_not_none = True
